@@ -126,8 +126,17 @@ func (r *logLevels) shift(l ...any) *logLevels {
 			ll = tv
 			ok = true
 		case int:
-			ll = LogLevel(tv)
-			ok = true
+			if 0 <= tv && tv <= int(AllLogLevels) {
+				ll = LogLevel(tv)
+				ok = true
+			}
+		}
+
+		if !ok {
+			// not a log level at all (unknown name,
+			// unsupported type, out of range): there
+			// is nothing to shift.
+			continue
 		}
 
 		if logLevels(ll) == logLevels(0) {
@@ -186,13 +195,16 @@ func (r *logLevels) unshift(l ...any) *logLevels {
 			ll = tv
 			ok = true
 		case int:
-			ll = LogLevel(tv)
-			ok = true
+			if 0 <= tv && tv <= int(AllLogLevels) {
+				ll = LogLevel(tv)
+				ok = true
+			}
 		}
 
 		if logLevels(ll) == logLevels(0) {
 			continue
 		} else if logLevels(ll) == ^logLevels(0) {
+			*r = logLevels(NoLogLevels)
 			break
 		}
 
